@@ -205,7 +205,8 @@ def tmpl_condition_callback_invoke(seed, _b, _c, ok):
                 return (state[0] + 1, "p")
 
             def strat(state, attempt):
-                return WaitForConditionDecision.stop_polling() if attempt >= 2 else WaitForConditionDecision.continue_waiting(Duration(2))
+                # decided from the carried STATE: a poll that forgets the state recorded by the previous attempt never reaches the target
+                return WaitForConditionDecision.stop_polling() if state[0] >= seed + 2 else WaitForConditionDecision.continue_waiting(Duration(2))
             s = observe(obs, "WFC", lambda: ctx.wait_for_condition(check, WaitForConditionConfig(strat, (seed, "p")), name="WFC"))
             cb = ctx.create_callback(name="CB")
             obs.see("CBID", "value", cb.callback_id)
